@@ -146,6 +146,22 @@ def z_on_segment(px, py, a, b):
     return zand(cr == 0, dot >= 0, dot <= L2)
 
 
+def z_clear(polys_a, polys_b, margin=Fraction(1, 10**5)):
+    """no near-contact: every vertex of one family is exactly on an edge of the other family or
+    (surely) at distance >= margin from it -- the regime in which the library's absolute
+    tolerances (1e-6) cannot change an answer"""
+    cs = []
+    for P, Q in ((polys_a, polys_b), (polys_b, polys_a)):
+        for vs in P:
+            for v in vs:
+                for ws in Q:
+                    n = len(ws)
+                    for i in range(n):
+                        a, b = ws[i], ws[(i + 1) % n]
+                        cs.append(z3.Or(z_on_segment(v[0], v[1], a, b), z_seg_off(v[0], v[1], a, b, margin)))
+    return z3.And(cs) if cs else z3.BoolVal(True)
+
+
 def z_on_boundary(px, py, polys):
     cs = []
     for vs in polys:
